@@ -91,6 +91,7 @@ type Stream struct {
 	// Read data above the sinceTs. All keys with version =< sinceTs will be ignored.
 	SinceTs      uint64
 	readTs       uint64
+	snapshotTs   uint64 // read timestamp shared by all producers of the current run
 	db           *DB
 	rangeCh      chan keyRange
 	kvChan       chan *z.Buffer
@@ -181,7 +182,12 @@ func (st *Stream) produceKVs(ctx context.Context, threadId int) error {
 	if st.readTs > 0 {
 		txn = st.db.NewTransactionAt(st.readTs, false)
 	} else {
-		txn = st.db.NewTransaction(false)
+		// Read at the timestamp Orchestrate picked for this run, so that all producers see the
+		// same snapshot. Orchestrate keeps a read mark at snapshotTs until the run is over; the
+		// mark taken here is released by txn.Discard.
+		txn = st.db.newTransaction(false, true)
+		txn.readTs = st.snapshotTs
+		st.db.orc.readMark.Begin(txn.readTs)
 	}
 	defer txn.Discard()
 	if y.VerifEnabled {
@@ -430,6 +436,14 @@ func (st *Stream) Orchestrate(ctx context.Context) error {
 
 	if st.KeyToList == nil {
 		st.KeyToList = st.ToList
+	}
+
+	if st.readTs == 0 {
+		// Take one read timestamp for the whole run. Every producer reads at it, so the stream
+		// is a single consistent snapshot even if transactions commit while it is running.
+		snap := st.db.NewTransaction(false)
+		defer snap.Discard()
+		st.snapshotTs = snap.readTs
 	}
 
 	// Picks up ranges from Badger, and sends them to rangeCh.
